@@ -295,7 +295,7 @@ func worldC07fp(w *World) {
 	w.K.LatencyMenu = [][]time.Duration{{0}, {0, time.Millisecond, 5 * time.Millisecond}}[t.Choice(2, "latprofile")]
 	nHealthy := t.Range(2, 8, "healthy")
 	nBad := t.Range(1, 5, "sabotaged")
-	kinds := []string{"fetch-404", "fetch-5xx", "fetch-truncated", "fetch-garbage", "fetch-no-start-time", "fetch-bad-start-time", "fetch-reset", "upload-5xx", "upload-reset", "upload-404"}
+	kinds := []string{"fetch-404", "fetch-5xx", "fetch-truncated", "fetch-garbage", "fetch-no-start-time", "fetch-bad-start-time", "fetch-reset", "upload-5xx", "upload-reset", "upload-404", "upload-early-400", "upload-early-503"}
 	fp := NewFakeProxy(w)
 	var healthy, bad []string
 	sab := map[string]string{}
@@ -413,6 +413,22 @@ func worldC07fp(w *World) {
 		case "upload-404":
 			w.K.Count("fault.upload_rejected")
 			http.NotFound(rw, r)
+			return true
+		case "upload-early-400", "upload-early-503":
+			// the answer arrives while the response body is still being uploaded
+			w.K.Count("fault.upload_rejected_early")
+			if hj, ok := rw.(http.Hijacker); ok {
+				if c, _, err := hj.Hijack(); err == nil {
+					status := "400 Bad Request"
+					if sab[id] == "upload-early-503" {
+						status = "503 Service Unavailable"
+					}
+					c.Write([]byte("HTTP/1.1 " + status + "\r\nContent-Length: 8\r\n\r\nrejected"))
+					c.SetReadDeadline(time.Now().Add(20 * time.Second))
+					io.Copy(io.Discard, c)
+					c.Close()
+				}
+			}
 			return true
 		case "upload-reset":
 			w.K.Count("fault.upload_reset")
